@@ -171,6 +171,23 @@ def section_multi():
             cases += 1
             if not close(full(idx, swp[s], (o[1], o[0])), full(idx, sym[s], o)):
                 fail("multi", "symbolic input: symbols=[y, x] does not permute the order indices of symbols=[x, y]", output=NAMES[s], order=o)
+    # the same for a dictionary with monomial keys: `symbols` fixes the order of the index axes and the dimension names report it;
+    # without `symbols` the axes are the symbols of the keys sorted by name; the key of H_0 may be the Python integer 1
+    mono = {1: tonp(S0), x: tonp(A_), y: tonp(B_), x * y: tonp(C_), x * y ** 2: tonp(D_)}
+    mxy = block_diagonalize(dict(mono), subspace_indices=sub)
+    myx = block_diagonalize(dict(mono), symbols=[y, x], subspace_indices=sub)
+    cases += 2
+    if [str(q) for q in mxy[0].dimension_names] != ["x", "y"]:
+        fail("multi", "monomial-key dictionary without symbols: dimension names are not the symbols of the keys sorted by name", names=[str(q) for q in mxy[0].dimension_names])
+    if [str(q) for q in myx[0].dimension_names] != ["y", "x"]:
+        fail("multi", "monomial-key dictionary with symbols=[y, x]: dimension names are not the supplied symbols", names=[str(q) for q in myx[0].dimension_names])
+    for s in range(3):
+        for o in orders_upto(2, 3):
+            cases += 1
+            if not close(full(idx, mxy[s], o), full(idx, sym[s], o)):
+                fail("multi", "monomial-key dictionary differs from the symbolic matrix with symbols=[x, y]", output=NAMES[s], order=o)
+            if not close(full(idx, myx[s], (o[1], o[0])), full(idx, sym[s], o)):
+                fail("multi", "monomial-key dictionary: symbols=[y, x] does not make the first index count powers of y", output=NAMES[s], order=o)
     for s in range(3):
         for o in orders_upto(2, 3):
             cases += 1
